@@ -10,6 +10,12 @@ S2  scenarios: (a) one per transition of a bounded Isolation instance, (b) TLC r
 S3  harness/cmd/c04 replays them on the real code (isolation.LoadRules, api.Entry(WithBatchCount) / Exit; gated
     goroutines parked at "chain.checked") and records decision, block type, triggered rule / value, CurrentConcurrency.
 S4  Isolation_Trace.tla (TLC) judges every recorded observable.
+Reloads: rule lists are also REPLACED / CLEARED in the middle of a history (Isolation!Reload, bounded instance SpecR in
+    Isolation_MC with the rules the property demands next to the rules the design enforces: IffR / FirstRuleR / InForce /
+    CapStep / ReloadKeepsInflight; mutant ClearBug), through isolation.LoadRules / LoadRulesOfResource (list, empty list) /
+    ClearRulesOfResource / ClearRules, with raw lists that contain invalid rules (threshold 0, other metric type, no
+    resource name), for two resources, while entries are in flight.  Isolation_Trace!TReload computes the rules in force
+    from the recorded raw list (validity predicate transcribed in the spec).
 """
 import json, os, sys
 import vlib
@@ -28,19 +34,25 @@ def value(l):
 
 
 # ------------------------------------------------------------------ S1
-def mc_cfg(cfgs, batches, maxreq, wrap='FALSE', check=True, extra=''):
-    return """SPECIFICATION Spec
+def mc_cfg(cfgs, batches, maxreq, wrap='FALSE', check=True, extra='', rel='MCNoRel', maxrel=0, bug='FALSE', invs=None):
+    """SpecR = Isolation!Spec + bounded reloads; maxrel = 0 is exactly the instance without reloads"""
+    if invs is None:
+        invs = ('INVARIANTS TypeOKR Iff FirstRuleReported CapR Reusable IffR FirstRuleR InForce\n'
+                'PROPERTIES RejectedNeverInflight CapStep ReloadKeepsInflight')
+    return """SPECIFICATION SpecR
 CONSTANTS
   Res = {1, 2}
   RuleCfgs <- %s
   Batches <- %s
   MaxReq = %d
   Wrap = %s
-VIEW view
+  RelLists <- %s
+  MaxRel = %d
+  ClearBug = %s
+VIEW viewR
 %s
 CHECK_DEADLOCK FALSE
-%s""" % (cfgs, batches, maxreq, wrap,
-         'INVARIANTS TypeOK Iff FirstRuleReported Cap Reusable\nPROPERTIES RejectedNeverInflight' if check else '', extra)
+%s""" % (cfgs, batches, maxreq, wrap, rel, maxrel, bug, invs if check else '', extra)
 
 
 def path_cfg(k, ts, w0s, bs, invs='TypeOK Bound NoSpurious Conserved', extra=''):
@@ -61,6 +73,11 @@ def model_check(c, thorough):
         r = c.model_check('Isolation_MC', cfg_text=mc_cfg('MCCfgs', batches, maxreq), workers=8, timeout=1500)
         if not r.completed:
             c.inconclusive.append('Isolation.tla: %s violated (%s) - the design model contradicts the property' % (r.violated, batches))
+    # rule lists replaced / cleared in the middle of a history (two resources, invalid rules, entries in flight)
+    r = c.model_check('Isolation_MC', cfg_text=mc_cfg('MCRelCfgs', 'MCRelBatches', 5 if not thorough else 6, rel='MCRelLists',
+                                                      maxrel=3 if not thorough else 4), workers=8, timeout=1500)
+    if not r.completed:
+        c.inconclusive.append('Isolation.tla with reloads: %s violated - the design model contradicts the property' % r.violated)
     for k, bs in ((2, '{0, 1, 2, 3}'), (3, '{0, 1, 2}' if not thorough else '{0, 1, 2, 3}')):
         r = c.model_check('AdmitPath_MC', cfg_text=path_cfg(k, 'MCTsConc', '{0, 1, 2, 3}', bs), workers=8, timeout=1500)
         if not r.completed:
@@ -71,6 +88,12 @@ def model_check(c, thorough):
     if r.violated != 'Iff':
         raise MachineryError('vacuity self-test: the uint32-wrapping design was not caught by Iff (%s)' % (r.violated or r.error))
     caught.append('wrap32->Iff')
+    r = c.tlc('Isolation_MC', cfg_text=mc_cfg('MCRelCfgs', 'MCRelBatches', 4, rel='MCRelLists', maxrel=2, bug='TRUE', invs='INVARIANTS IffR'),
+              workers=4, timeout=600, count=False)
+    if r.violated != 'IffR':
+        raise MachineryError('vacuity self-test: the design "clearing a resource without valid rules uncaps the others" was not '
+                             'caught by IffR (%s)' % (r.violated or r.error))
+    caught.append('clear-uncaps-others->IffR')
     r = c.tlc('AdmitPath_MC', cfg_text=path_cfg(3, 'MCTsGenC', '{0, 1}', '{1, 2}', invs='BoundTooTight'), workers=4, timeout=600, count=False)
     if r.violated != 'BoundTooTight':
         raise MachineryError('vacuity self-test: the N + k-1 bound is not tight in AdmitPath (%s)' % (r.violated or r.error))
@@ -96,10 +119,113 @@ def decorate(c, hist, tr):
         o = dict(o)
         if o['op'] == 'new':
             o = dict(op='new', tr=tr, nres=2, rules=[dict(res=r['res'], N=list(r['N'])) for r in o['rules']])
-        elif c.rng.random() < 0.3:
-            o['dt'] = c.rng.choice([1, 250, 499, 500, 1000, 10001, 60001, 3600000])
+        else:
+            if o['op'] == 'reload':
+                o['rules'] = [dict(res=r['res'], N=list(r['N']), mt=r['mt']) for r in o['rules']]
+            if c.rng.random() < 0.3:
+                o['dt'] = c.rng.choice([1, 250, 499, 500, 1000, 10001, 60001, 3600000])
         out.append(o)
     return out
+
+
+def probe_tail(s, n=4, first=100):
+    """what the rules in force are after the last push shows in the decisions: n more requests of batch 1 per resource"""
+    rid = first
+    for res in (1, 2):
+        for _ in range(n):
+            rid += 1
+            s.append(dict(op='req', res=res, b=limbs(1), id=rid))
+    return s
+
+
+def reload_tlc_scenarios(c, thorough, tr):
+    """one scenario per transition of the bounded instance WITH reloads + TLC random simulation of a larger one"""
+    scns = []
+    cap = 1200 if not thorough else 20000
+    cfg = mc_cfg('MCGenRelCfgs', 'MCGenRelBatches', 3, check=False, extra='ACTION_CONSTRAINT Emit\n', rel='MCGenRelLists',
+                 maxrel=2 if not thorough else 3)
+    r = c.tlc('Isolation_MC', cfg_text=cfg, workers=4, timeout=900, count=False)
+    if r.error:
+        raise MachineryError('reload scenario generation failed: %s\n%s' % (r.error, r.out[-1500:]))
+    hs = r.json_prints()
+    keep = [x for x in maximal(hs) if any(o['op'] == 'reload' for o in x)]
+    n = len(keep)
+    if len(keep) > cap:
+        keep = c.rng.sample(keep, cap)
+    for hist in keep:
+        tr += 1
+        scns.append(probe_tail(decorate(c, hist, tr)))
+    c.log('S2 reload transition cover: %d transitions -> %d maximal scenarios with a reload, %d kept' % (len(hs), n, len(keep)))
+    num = 150 if not thorough else 2000
+    cfg = mc_cfg('MCCfgs', 'MCBatches', 12, check=False, extra='ACTION_CONSTRAINT Emit\n', rel='MCRelLists', maxrel=4)
+    r = c.tlc('Isolation_MC', cfg_text=cfg, workers=1, timeout=900, count=False,
+              args=['-simulate', 'num=%d' % num, '-depth', '24', '-seed', str(c.seed)])
+    keep = [x for x in maximal(r.json_prints()) if any(o['op'] == 'reload' for o in x)]
+    if not keep:
+        raise MachineryError('TLC simulation with reloads produced no behaviours\n' + r.out[-1500:])
+    nsim = len(keep)
+    lim = 500 if not thorough else 10000
+    if len(keep) > lim:
+        keep = c.rng.sample(keep, lim)
+    for hist in keep:
+        tr += 1
+        scns.append(probe_tail(decorate(c, hist, tr), n=2))
+    c.log('S2 TLC simulation with reloads: %d behaviours, %d kept' % (nsim, len(keep)))
+    return scns, tr
+
+
+def directed_reload_scenarios(c, tr):
+    """shapes written down by hand: thresholds lowered / raised under traffic, invalid-only lists, clearing one resource
+    next to another, the same list pushed twice"""
+    scns = []
+    R = lambda res, n, mt=0: dict(res=res, N=limbs(n), mt=mt)
+    rel = lambda via, r=0, rules=(): dict(op='reload', via=via, r=r, rules=list(rules))
+
+    def mk(rules, ops):
+        nonlocal tr
+        tr += 1
+        s = [dict(op='new', tr=tr, nres=2, rules=[dict(res=a, N=limbs(n)) for a, n in rules])]
+        rid = 0
+        for o in ops:
+            if isinstance(o, tuple):        # ('req', res, b) / ('exit', id)
+                if o[0] == 'req':
+                    rid += 1
+                    s.append(dict(op='req', res=o[1], b=limbs(o[2]), id=rid))
+                else:
+                    s.append(dict(op='exit', id=o[1]))
+            else:
+                s.append(dict(o))
+        scns.append(s)
+    # a resource whose pushed rules are all invalid is cleared next to a resource with a valid rule
+    for n in (1, 2, 3):
+        for bad in (R(2, 0), R(2, 2, 1), R(2, 0, 1)):
+            for first in ('all', 'res'):
+                for clr in (rel('clear', 2), rel('res', 2)):
+                    for pre in (0, 1):
+                        ops = [('req', 1, 1)] * pre
+                        if first == 'all':
+                            ops.append(rel('all', 0, [R(1, n), bad]))
+                        else:
+                            ops += [rel('res', 2, [bad]), rel('res', 1, [R(1, n)])]
+                        ops.append(clr)
+                        ops += [('req', 1, 1)] * (n + 1) + [('exit', 1), ('req', 1, 1), ('req', 2, 1), ('req', 2, 5)]
+                        mk([(1, 5)], ops)
+    for n in (1, 2):
+        # threshold lowered while entries are in flight: they keep occupying capacity
+        mk([(1, 3)], [('req', 1, 1)] * 3 + [rel('res', 1, [R(1, n)]), ('req', 1, 1), ('exit', 1), ('req', 1, 1), ('exit', 2),
+                                             ('req', 1, 1), ('exit', 3), ('req', 1, 1), ('req', 1, 1), ('req', 1, 1)])
+        # raised
+        mk([(1, n)], [('req', 1, 1)] * (n + 1) + [rel('all', 0, [R(1, n + 2)])] + [('req', 1, 1)] * 3)
+        # cleared and loaded again with entries in flight
+        mk([(1, n), (2, 1)], [('req', 1, 1)] * n + [rel('clearall'), ('req', 1, 1), ('req', 2, 1), ('req', 2, 1),
+                                                   rel('all', 0, [R(1, n + 1), R(2, 0), R(2, 3)]), ('req', 1, 1), ('req', 1, 1), ('req', 2, 1), ('req', 2, 1)])
+        # a list of invalid rules only uncaps THIS resource, not the other one
+        mk([(1, n), (2, n)], [rel('res', 1, [R(1, 0), R(1, n, 1)])] + [('req', 1, 1)] * (n + 1) + [('req', 2, 1)] * (n + 1))
+        mk([(1, n), (2, n)], [rel('all', 0, [R(1, 0), R(2, n), R(0, 1)])] + [('req', 1, 1)] * (n + 1) + [('req', 2, 1)] * (n + 1))
+        # invalid rules between valid ones; the same list twice; rules naming another resource in a per-resource push
+        mk([(1, 5)], [rel('all', 0, [R(1, n + 1), R(1, 0), R(1, n), R(2, 0)])] * 2 + [('req', 1, 1)] * (n + 1) + [rel('clear', 2), ('req', 1, 1), ('exit', 1), ('req', 1, 1)])
+        mk([(1, 5)], [rel('res', 1, [R(2, 1), R(1, n)]), ('req', 2, 1), ('req', 2, 1)] + [('req', 1, 1)] * (n + 1) + [rel('clear', 1), ('req', 1, 1)])
+    return scns, tr
 
 
 def tlc_scenarios(c, thorough, tr):
@@ -150,7 +276,19 @@ def random_scenarios(c, n, tr):
         pending = []
         rid = 0
         storm_at = rng.randint(0, 12) if rng.random() < 0.2 else -1
+        prel = rng.choice([0, 0, 0.1, 0.2, 0.3])      # rule lists replaced / cleared under traffic, invalid rules among them
         for step in range(rng.randint(10, 40)):
+            if rng.random() < prel:
+                via = rng.choice(['all', 'all', 'res', 'res', 'res', 'clear', 'clear', 'clearall'])
+                r = rng.choice([1, 2]) if via in ('res', 'clear') else 0
+                raw = []
+                if via in ('all', 'res'):
+                    for _ in range(rng.choice([0, 1, 1, 2, 2, 3])):
+                        res = rng.choice([1, 2, 0]) if (via == 'all' or rng.random() < 0.15) else r
+                        raw.append(dict(res=res, N=limbs(rng.choice([0, 0, 0, 1, 1, 2, 2, 3, 5, 2 ** 31, M32])), mt=rng.choice([0, 0, 0, 0, 0, 1, 7])))
+                s.append(dict(op='reload', via=via, r=r, rules=raw))
+                small = [x for x in raw if 0 < value(x['N']) < 100] or small
+                continue
             if step == storm_at:
                 # free-running goroutines (real parallelism): gauge conserved, bound N + W-1, freed capacity reusable afterwards
                 s.append(dict(op='storm', res=rng.choice([1, 1, 2]), workers=rng.choice([2, 4, 8]), iters=rng.choice([50, 200, 400])))
@@ -253,15 +391,23 @@ def binding_selftest(c, tp):
             order[e['tr']] = n
             done = False
             skip = c.rng.randint(0, 3)
-        elif not done and e['op'] in ('req', 'exit'):
+        elif not done and e['op'] in ('req', 'exit', 'reload'):
             if skip > 0:
                 skip -= 1
             else:
                 kind = c.rng.choice(['conc', 'ok', 'val'])
-                if kind == 'ok' and e['op'] == 'req' and not e['ok']:
+                if e['op'] == 'reload':
+                    if kind == 'val':
+                        e['got'][0] = e['got'][0] + [limbs(7)]
+                    else:
+                        e['conc'][c.rng.randrange(len(e['conc']))] += 1
+                elif kind == 'ok' and e['op'] == 'req' and not e['ok']:
                     e = dict(op='req', res=e['res'], b=e['b'], id=e['id'], ok=True, conc=e['conc'] + 1)
                 elif kind == 'val' and e['op'] == 'req' and not e['ok']:
-                    e['val'] = limbs(value(e['val']) + 1)
+                    if c.rng.random() < 0.5:
+                        e['val'] = limbs(value(e['val']) + 1)
+                    else:
+                        e['rN'] = limbs(value(e['rN']) + 1)
                 else:
                     e['conc'] += 1
                 done = True
@@ -348,6 +494,19 @@ def nontrivial(trace):
 
 def count_nontrivial(c, tp, seen):
     for tr, lines in split_traces(read_ndjson(tp)).items():
+        infl = 0
+        for e in lines:
+            if e['op'] == 'req' and e['ok']:
+                infl += 1
+            elif e['op'] == 'exit':
+                infl -= 1
+            elif e['op'] == 'reload':
+                c.cov['reload_events'] = c.cov.get('reload_events', 0) + 1
+                c.cov['reload_via_' + e['via']] = c.cov.get('reload_via_' + e['via'], 0) + 1
+                if any(value(r['N']) == 0 or r['mt'] != 0 or r['res'] == 0 for r in e['rules']):
+                    c.cov['reloads_with_invalid_rules'] = c.cov.get('reloads_with_invalid_rules', 0) + 1
+                if infl > 0:
+                    c.cov['reloads_with_entries_in_flight'] = c.cov.get('reloads_with_entries_in_flight', 0) + 1
         if nontrivial(lines):
             seen.add(json.dumps([{k: v for k, v in e.items() if k != 'tr'} for e in lines], sort_keys=True))
 
@@ -375,8 +534,10 @@ def check(c, tier, replay):
     tl, cover, tr = tlc_scenarios(c, thorough, tr)
     rs, tr = random_scenarios(c, 500 if not thorough else 6000, tr)
     ps, tr = path_scenarios(c, thorough, tr)
+    rl, tr = reload_tlc_scenarios(c, thorough, tr)
+    dl, tr = directed_reload_scenarios(c, tr)
     seen = set()
-    for tag, group in (('tlc', tl), ('random', rs), ('gated', ps)):
+    for tag, group in (('tlc', tl), ('random', rs), ('gated', ps), ('reload', rl), ('directed', dl)):
         for i in range(0, len(group), 3000):
             part = group[i:i + 3000]
             mism, tp = run_and_validate(c, drv, part, '%s%d' % (tag, i))
@@ -395,11 +556,14 @@ def check(c, tier, replay):
                      'histories (entries held open, random exit order, batches over the whole uint32 range) + every complete '
                      'AdmitPath schedule TLC emits (gated goroutines); non-trivial = distinct recorded trace with a rejection, an '
                      'admission and a request right after an exit (or a gated section); implementation_drift = remarks where the '
-                     'real outcomes differ from the AdmitPath replay of the schedule without breaking the bound' % cover)
+                     'real outcomes differ from the AdmitPath replay of the schedule without breaking the bound; + one scenario per '
+                     'transition of the bounded instance with reloads, TLC simulation with reloads, hand-written reload shapes' % cover)
     c.sample(tl[len(tl) // 2][:8])
     c.sample(rs[0][:8])
     c.sample(ps[-1])
-    c.assumptions += ['rules are loaded before any traffic of the scenario; fresh resources per scenario',
+    c.sample(dl[0])
+    c.assumptions += ['fresh resources per scenario; rule lists are loaded at the start of a scenario and replaced / cleared in the '
+                      'middle of it (reload op: LoadRules / LoadRulesOfResource / ClearRulesOfResource / ClearRules, invalid rules included)',
                       'uint32 thresholds / batches / reported values are carried as two 16-bit limbs and compared as mathematical integers',
                       'gated callers use small batches; the k-callers bound is N + k-1 for batches >= 1 (one more when a zero batch is present)',
                       'TLC model checking is exhaustive only for the bounded instances listed in tlc_runs']
